@@ -518,7 +518,7 @@ MANIFEST = dict(
 # ---- concurrency windows (tools/props/winlib.py): two writers on one connection, one parked inside the underlying Write
 import winlib
 
-TRUSTED = TRUSTED + ['schedule control of the window drivers: a goroutine is parked inside a call through a seam the harness owns (the underlying net.Conn of the WebSocketConn / TLSConn); "the other goroutine has returned or is blocked on a lock" is read off runtime.Stack wait states; outcomes are judged by the property predicate only']
+TRUSTED = TRUSTED + ['schedule control of the window drivers: a goroutine is parked inside a call through a seam the harness owns (the underlying net.Conn of the WebSocketConn / TLSConn); "the other goroutine has returned or is blocked on a lock" is read off runtime.Stack wait states; outcomes are judged by the property predicate only', 'hand-written model coq/Model/WsWriters.v of the write side of WebSocketConn (writers as threads, writeM as explicit state, a message = one or more frames = one underlying Write each; gorilla/websocket itself is a black box); that WebSocketConn.Write really holds writeM around WriteMessage is the generated obligation (lockscan) and is exercised by the parked-writer schedules']
 MANIFEST = dict(MANIFEST, level_note=MANIFEST['level_note'] + ' Concurrent writers: writer A parked inside the underlying Write while writer B writes, WebSocketConn in both roles and TLSConn (harness/common/c05_win_test.go); C05_ws_no_interleave is the theorem about the write mutex, that Write holds it is the generated obligation of Proofs/AtomWire.')
 _corr_before_windows = correspondence
 _replay_before_windows = replay
